@@ -93,14 +93,9 @@ QXmppTask<QXmpp::SendResult> QXmppClient::reply(QXmppStanza &&stanza, const std:
 extern "C" void vp_c08_empty_disco(QXmppDiscoveryIq *out) { new (out) QXmppDiscoveryIq; }
 static void keepHooks() { if (vp_c08_false()) vp_c08_empty_disco(nullptr); }
 
-// One instance covers all IQ types and from present/absent, but each combination runs on its own branch of a switch over a
-// nondeterministic selector: inside a branch type and shape are constants for symbolic execution (no merged pointers), the
-// solver still decides all branches in one query.  Distinct template instances keep the optimiser from merging the calls.
-#define DISPATCH(f) do { unsigned c_ = vp_u8(); vp_assume(c_ < 3); switch (c_) { case 0: f<0>(); break; case 1: f<1>(); break; default: f<2>(); break; } } while (0)
 #ifndef C08_HASFROM
 #define C08_HASFROM true
 #endif
-
 static void symOwnJid()
 {
     internAttrs();
@@ -110,22 +105,25 @@ static void symOwnJid()
 }
 
 // ------------------------------------------------------------------------------------------------ (1) typed request helper
+static constexpr unsigned IQH_SHAPES[8] = { SH_NONE, SH_PING, SH_VERSION, SH_TIME, SH_QUERY_NONS, SH_VCARD_IN_VERSION_NS, SH_QUERY_IN_TIME_NS, SH_PING_THEN_VERSION };
 // checkIsIqRequest: request <=> <iq> with type get or set; reports tag and namespace of the FIRST child element
-template<unsigned C> static void checkCase()
-{
-    SymIq q;
-    const bool isIq = vp_bool();
-    symIq(q, C, true, 2, isIq ? L("iq") : L("message"));
-    auto [isRequest, tagName, xmlns] = QXmpp::Private::checkIsIqRequest(q.iq);
-    vp_assert(isRequest == (isIq && q.isRequest()), "C08 checkIsIqRequest: a request is exactly an <iq/> of type get or set");
-    if (isRequest) {
-        QString t, n;
-        if (q.nch >= 1) { vp_c08_pick_tag(&t, q.tag[0]); vp_c08_pick_ns(&n, q.effNs(0)); }
-        vp_assert(tagName == t && xmlns == n, "C08 checkIsIqRequest reports tag and namespace of the first child element (empty if none)");
+template<bool IS_IQ> struct CheckCase {
+    template<unsigned TY, unsigned K> static void run()
+    {
+        SymIq q;
+        symIq(q, TY, IQH_SHAPES[K], true, IS_IQ ? L("iq") : L("message"));
+        auto [isRequest, tagName, xmlns] = QXmpp::Private::checkIsIqRequest(q.iq);
+        vp_assert(isRequest == (IS_IQ && q.isRequest()), "C08 checkIsIqRequest: a request is exactly an <iq/> of type get or set");
+        if (isRequest) {
+            QString t, n;
+            if (q.nch >= 1) { vp_c08_pick_tag(&t, q.tag[0]); vp_c08_pick_ns(&n, q.effNs(0)); }
+            vp_assert(tagName == t && xmlns == n, "C08 checkIsIqRequest reports tag and namespace of the first child element (empty if none)");
+        }
+        vp_assert(g_nsent == 0, "C08 checkIsIqRequest sends nothing");
     }
-    vp_assert(g_nsent == 0, "C08 checkIsIqRequest sends nothing");
-}
-extern "C" void h_iqh_check() { internAttrs(); keepHooks(); DISPATCH(checkCase); }
+};
+extern "C" void h_iqh_check() { internAttrs(); keepHooks(); if (vp_bool()) { DISPATCH_REQ(CheckCase<true>::template run); } else { DISPATCH_RESP(CheckCase<true>::template run); } }
+extern "C" void h_iqh_check_noiq() { internAttrs(); keepHooks(); if (vp_bool()) { DISPATCH_REQ(CheckCase<false>::template run); } else { DISPATCH_RESP(CheckCase<false>::template run); } }
 // sendIqReply: exactly one stanza, to = requester, id = request id, type result unless the handler made it an error
 template<unsigned C> static void replyCase()
 {
@@ -153,7 +151,7 @@ extern "C" void h_iqh_reply()
 // handleIqRequests<A, B> with a handler object: variant<Iq, Error> for A, plain Iq for B
 struct Handler {
     int calls = 0; int which = 0;
-    unsigned outcome;      // 0 result iq (left at the default type 'get' or marked 'result'), 1 stanza error, 2 iq the handler already marked as error
+    unsigned outcome;      // 0 result iq (left at the default type 'get' / 'set'), 1 stanza error, 2 iq the handler already marked as error
     std::variant<QXmppVersionIq, QXmppStanza::Error> handleIq(QXmppVersionIq &&)
     {
         calls++; which = 1;
@@ -171,9 +169,9 @@ struct Handler {
     }
 };
 template<unsigned OUTCOME> struct HandleCase {
-    template<unsigned C> static void run()
+    template<unsigned TY, unsigned K> static void run()
     {
-        SymIq q; symIq(q, C, C08_HASFROM, 2);
+        SymIq q; symIq(q, TY, IQH_SHAPES[K], C08_HASFROM);
         Handler h; h.outcome = OUTCOME;
         const bool r = QXmpp::handleIqRequests<QXmppVersionIq, QXmppEntityTimeIq>(q.iq, theClient(), &h);
         const bool isVersion = q.firstIs(TAG_QUERY, NS_VERSION), isTime = q.firstIs(TAG_TIME, NS_TIME);
@@ -189,9 +187,10 @@ template<unsigned OUTCOME> struct HandleCase {
         }
     }
 };
-extern "C" void h_iqh_handle_result() { internAttrs(); keepHooks(); DISPATCH(HandleCase<0>::template run); }
-extern "C" void h_iqh_handle_error() { internAttrs(); keepHooks(); DISPATCH(HandleCase<1>::template run); }
-extern "C" void h_iqh_handle_erroriq() { internAttrs(); keepHooks(); DISPATCH(HandleCase<2>::template run); }
+extern "C" void h_iqh_handle_result() { internAttrs(); keepHooks(); DISPATCH_REQ(HandleCase<0>::template run); }
+extern "C" void h_iqh_handle_error() { internAttrs(); keepHooks(); DISPATCH_REQ(HandleCase<1>::template run); }
+extern "C" void h_iqh_handle_erroriq() { internAttrs(); keepHooks(); DISPATCH_REQ(HandleCase<2>::template run); }
+extern "C" void h_iqh_handle_resp() { internAttrs(); keepHooks(); DISPATCH_RESP(HandleCase<0>::template run); }
 
 // ------------------------------------------------------------------------------------------------ (3) real managers
 // contract of an extension towards the chain (see h_client.cpp)
@@ -213,62 +212,70 @@ template<typename M> struct Raw {
     template<typename P> void setD(P *d) { new (const_cast<std::unique_ptr<P> *>(&raw->d)) std::unique_ptr<P>(d); }
     M *operator->() { return raw.p(); }
 };
+#define ENTRIES(name, fn) \
+    extern "C" void h_mgr_##name##_req() { symOwnJid(); DISPATCH_REQ(fn); } \
+    extern "C" void h_mgr_##name##_resp() { symOwnJid(); DISPATCH_RESP(fn); }
 
-template<unsigned C> static void versionCase()
+static constexpr unsigned VERSION_SHAPES[8] = { SH_NONE, SH_PING, SH_VERSION, SH_DISCO_INFO, SH_QUERY_NONS, SH_VCARD_IN_VERSION_NS, SH_PING_THEN_VERSION, SH_TIME };
+template<unsigned TY, unsigned K> static void versionCase()
 {
     Raw<QXmppVersionManager> m;
     auto *d = new QXmppVersionManagerPrivate; d->clientName = vpSymString(1); d->clientVersion = vpSymString(1); d->clientOs = vpSymString(1);
     m.setD(d);
-    SymIq q; symIq(q, C, C08_HASFROM, 2);
+    SymIq q; symIq(q, TY, VERSION_SHAPES[K], C08_HASFROM);
     const bool r = m->QXmppVersionManager::handleStanza(q.iq);
     checkContract(q, r);
     if (q.isRequest()) vp_assert(r == q.firstIs(TAG_QUERY, NS_VERSION), "C08 the version manager claims exactly the jabber:iq:version requests");
     if (q.isRequest() && r && g_nsent == 1) vp_assert(!replyIsError(0), "C08 a version request is answered with a result");
 }
-extern "C" void h_mgr_version() { symOwnJid(); DISPATCH(versionCase); }
-template<unsigned C> static void timeCase()
+ENTRIES(version, versionCase)
+static constexpr unsigned TIME_SHAPES[8] = { SH_NONE, SH_PING, SH_TIME, SH_VERSION, SH_QUERY_NONS, SH_QUERY_IN_TIME_NS, SH_PING_THEN_TIME, SH_TIME_IN_VCARD_NS };
+template<unsigned TY, unsigned K> static void timeCase()
 {
     Raw<QXmppEntityTimeManager> m;
-    SymIq q; symIq(q, C, C08_HASFROM, 2);
+    SymIq q; symIq(q, TY, TIME_SHAPES[K], C08_HASFROM);
     const bool r = m->QXmppEntityTimeManager::handleStanza(q.iq);
     checkContract(q, r);
     if (q.isRequest()) vp_assert(r == q.firstIs(TAG_TIME, NS_TIME), "C08 the entity time manager claims exactly the urn:xmpp:time requests");
     if (q.isRequest() && r && g_nsent == 1) vp_assert(replyIsError(0) == (q.ty == TY_SET), "C08 entity time: get is answered with a result, set with an error");
 }
-extern "C" void h_mgr_time() { symOwnJid(); DISPATCH(timeCase); }
-template<unsigned C> static void discoCase()
+ENTRIES(time, timeCase)
+static constexpr unsigned DISCO_SHAPES[8] = { SH_NONE, SH_PING, SH_DISCO_INFO, SH_DISCO_ITEMS, SH_QUERY_NONS, SH_PING_IN_DISCO_NS, SH_PING_THEN_DISCO, SH_VERSION };
+template<unsigned TY, unsigned K> static void discoCase()
 {
     Raw<QXmppDiscoveryManager> m;
     auto *d = new QXmppDiscoveryManagerPrivate; d->clientCapabilitiesNode = vpSymString(1);
     m.setD(d);
-    SymIq q; symIq(q, C, C08_HASFROM, 2);
+    SymIq q; symIq(q, TY, DISCO_SHAPES[K], C08_HASFROM);
     // node attribute of the query (decides item-not-found)
     { QDomElement c; vp_c08_dom_child(&c, &q.iq, 0); if (!c.isNull()) attr(c, L("node"), vpSymString(1)); }
     const bool r = m->QXmppDiscoveryManager::handleStanza(q.iq);
     checkContract(q, r);
     if (q.isRequest()) vp_assert(r == (q.firstIs(TAG_QUERY, NS_DISCO_INFO) || q.firstIs(TAG_QUERY, NS_DISCO_ITEMS)), "C08 the discovery manager claims exactly the disco#info / disco#items requests");
 }
-extern "C" void h_mgr_disco() { symOwnJid(); DISPATCH(discoCase); }
-template<unsigned C> static void vcardCase()
+ENTRIES(disco, discoCase)
+static constexpr unsigned VCARD_SHAPES[8] = { SH_NONE, SH_PING, SH_VCARD, SH_ROSTER, SH_QUERY_NONS, SH_TIME_IN_VCARD_NS, SH_PING_THEN_VCARD, SH_VCARD_IN_VERSION_NS };
+template<unsigned TY, unsigned K> static void vcardCase()
 {
     Raw<QXmppVCardManager> m;
     m.setD(new QXmppVCardManagerPrivate);
-    SymIq q; symIq(q, C, C08_HASFROM, 2);
+    SymIq q; symIq(q, TY, VCARD_SHAPES[K], C08_HASFROM);
 #ifdef KF_vcard_request_swallowed
-    vp_assume(!(q.isRequest() && q.firstIs(TAG_VCARD, NS_VCARD)));
+    if (q.isRequest() && q.firstIs(TAG_VCARD, NS_VCARD)) return;
 #endif
     const bool r = m->QXmppVCardManager::handleStanza(q.iq);
     checkContract(q, r);
 }
-extern "C" void h_mgr_vcard() { symOwnJid(); DISPATCH(vcardCase); }
-template<unsigned C> static void rosterCase()
+ENTRIES(vcard, vcardCase)
+static constexpr unsigned ROSTER_SHAPES[8] = { SH_NONE, SH_PING, SH_ROSTER, SH_VCARD, SH_QUERY_NONS, SH_PING_IN_ROSTER_NS, SH_PING_THEN_ROSTER, SH_DISCO_ITEMS };
+template<unsigned TY, unsigned K> static void rosterCase()
 {
     Raw<QXmppRosterManager> m;     // private data stays raw: roster IQs without <item/> never touch it (items are C12's subject)
-    SymIq q; symIq(q, C, C08_HASFROM, 2);
+    SymIq q; symIq(q, TY, ROSTER_SHAPES[K], C08_HASFROM);
 #ifdef KF_roster_get_swallowed
-    vp_assume(!(q.ty == TY_GET && q.firstIs(TAG_QUERY, NS_ROSTER)));
+    if (q.ty == TY_GET && q.firstIs(TAG_QUERY, NS_ROSTER)) return;
 #endif
     const bool r = m->QXmppRosterManager::handleStanza(q.iq);
     checkContract(q, r);
 }
-extern "C" void h_mgr_roster() { symOwnJid(); DISPATCH(rosterCase); }
+ENTRIES(roster, rosterCase)
